@@ -244,7 +244,7 @@ Qed.
 
 
 (* ---------- opening a writer: every outcome ---------- *)
-Lemma open_writer_any f fl key o :
+Lemma open_writer_outcomes f fl key o :
   (forall l, lookup f l <> None -> lookup (snd (run (open_writer fl key o) f)) l = lookup f l) /\
   (forall w, fst (run (open_writer fl key o) f) = Ok w ->
      WInv (snd (run (open_writer fl key o) f)) w /\ lookup f (w_tmp w) = None /\ w_data w = []).
@@ -277,7 +277,7 @@ Lemma oneshot_steps_any f fl key o data now : steps_ok (csafe hash) (oneshot has
 Proof.
   unfold oneshot, rbind at 1. apply steps_ok_bind. split.
   - apply (all_steps_ok csafe'); [apply csafe'_csafe|apply open_writer_all].
-  - destruct (open_writer_any f fl key o) as [_ Hw]. destruct (run (open_writer fl key o) f) as [r f1]. cbn [fst snd] in *.
+  - destruct (open_writer_outcomes f fl key o) as [_ Hw]. destruct (run (open_writer fl key o) f) as [r f1]. cbn [fst snd] in *.
     destruct r as [w|e| | |]; try exact I. destruct (Hw w eq_refl) as [Hwi _].
     destruct data as [|b data]; [apply (commit_steps hash HL); exact Hwi|].
     apply steps_ok_bind. split.
@@ -290,7 +290,7 @@ Lemma oneshot_keeps_tmp f fl key o data now l :
   tmpfile l -> lookup f l <> None -> lookup (snd (run (oneshot hash fl key o data now) f)) l = lookup f l.
 Proof.
   intros Hl Hex. unfold oneshot, rbind at 1. rewrite run_bind.
-  destruct (open_writer_any f fl key o) as [Hk Hw]. destruct (run (open_writer fl key o) f) as [r f1]. cbn [fst snd] in *.
+  destruct (open_writer_outcomes f fl key o) as [Hk Hw]. destruct (run (open_writer fl key o) f) as [r f1]. cbn [fst snd] in *.
   destruct r as [w|e| | |]; cbn [run snd]; try (apply Hk; exact Hex).
   destruct (Hw w eq_refl) as [Hwi [Hfresh _]].
   assert (Some (w_tmp w) <> Some l) as Hne by (intros E; inversion E; subst l; contradiction).
@@ -517,7 +517,7 @@ Proof.
     destruct (content_inv_crash hash (open_writer fl key o) (s_fs s) Hc) as [Hcr Hfin].
     { apply (all_steps_ok csafe'); [apply csafe'_csafe|apply open_writer_all]. }
     split; [|exact Hcr].
-    destruct (open_writer_any (s_fs s) fl key o) as [Hk Hnew].
+    destruct (open_writer_outcomes (s_fs s) fl key o) as [Hk Hnew].
     destruct (run (open_writer fl key o) (s_fs s)) as [r f]. cbn [fst snd] in *.
     destruct r as [ws|e| | |]; cbn [snd].
     2-5: apply (sinv_same_tables s); [exact Hs|reflexivity|exact Hfin|intros l _ Hex; apply Hk; exact Hex].
